@@ -290,6 +290,10 @@ pub fn run(a: &Args) -> i32 {
         collision_pass(&w, &sink, &mut rep);
         single_generator_pass(&w, &sink, &mut rep, if a.tier == "thorough" { 1_500_000 } else { 450_000 });
     }
+    if prop == "C02" {
+        // arrangements whose keys differ in exactly one bit, put to one generator (see c11.rs)
+        crate::props::c11::near_key_arrangements("C02", &sink, &mut rep);
+    }
     if prop == "C02" || prop == "C06" {
         twin_pass(prop, &w, &sink, &mut rep, a.threads, if a.tier == "thorough" { 2_000_000 } else { 500_000 });
     }
